@@ -30,8 +30,8 @@ func Assert(ctx *context.Context, args ...value.Value) (value.Value, error) {
 
 	// Check custom message
 	var message string
-	if len(args) == 3 {
-		message = value.Unwrap[*value.String](args[2]).Value
+	if len(args) == 2 {
+		message = value.Unwrap[*value.String](args[1]).Value
 	} else {
 		message = "Expression value should be truthy"
 	}
